@@ -261,7 +261,9 @@ var kindsC07 = []wk{
 	{"snip:remember", 12}, {"snip:recover", 4}, {"snip:oauth", 8}, {"snip:o2stale", 5}, {"o2start", 2}, {"o2cb", 3}, {"get", 2}, {"dropcookie", 1}, {"snip:rotatefault", 6},
 }
 
-var hostilePIDs = []string{"a;b@x.io", "semi;;colon@x.io", ";lead@x.io", "trail@x.io;", "oauth2;x@x.io", "plain@x.io", "unié@x.io", "x@y.io"}
+var hostilePIDs = []string{"a;b@x.io", "semi;;colon@x.io", ";lead@x.io", "trail@x.io;", "oauth2;x@x.io", "plain@x.io", "unié@x.io", "x@y.io",
+	// identifiers are arbitrary bytes to the library: control characters (accounts imported or created outside the form rules)
+	"tab\tuser@x.io", "nul\x00byte@x.io", "line\nfeed@x.io", "del\x7f;semi@x.io"}
 
 var profC07 = profile{
 	must: []string{"auth", "remember", "logout"}, may: []string{"recover", "oauth2", "otp", "lock", "confirm"},
